@@ -102,11 +102,14 @@ class Conv:
     def emit(self, **st):
         self.steps.append(st)
 
-    def flush(self, st):
+    def flush(self, st, final=False):
         """recovery has settled: observe before the driver does anything else"""
         q, self.quiesce = self.quiesce, None
         if q is None:
             return
+        if not final and (tset(st["rq"]) or tset(st["rcv"])):
+            # the model lets the core go on while reconciliation updates are still queued; the driver cannot
+            raise Undrivable("a driver step before the recovery has settled")
         if q == "restart":
             self.emit(do="c18_waitdead", timeout_ms=3000)
             self.emit(do="settle", ms=150)
@@ -346,7 +349,7 @@ class Conv:
             self.emit(do="c18_waitreconcile", timeout_ms=20000)
             self.quiesce = "restart"
             last = dict(last, env={x: "none" for x in last["env"]})
-        self.flush(last)
+        self.flush(last, final=True)
         if self.hookgate:
             self.emit(do="ungate", point="task.lock")
             self.emit(do="settle", ms=60)
